@@ -11,6 +11,11 @@ Theorem C14_safe_table_literal : forall c, gen_sh_safe c = true -> sh_literal c 
 Proof. exact gen_safe_literal. Qed.
 Print Assumptions C14_safe_table_literal.
 
+(* (T) the decimal-digit table that the model of int() embeds is the one of the
+   interpreter the code runs on (regenerated from unicodedata on every run) *)
+Example C14_digit_table_current : gen_digit_zeros = digit_zeros.
+Proof. vm_compute. reflexivity. Qed.
+
 (* sh: for every argument list without NUL, a POSIX shell splits the text of
    args2sh (with the safe class of the current source) into exactly the
    arguments, nothing expanded. *)
